@@ -1,5 +1,6 @@
 from __future__ import annotations
 
+import math
 from typing import Any, ClassVar
 
 from attr import define
@@ -65,6 +66,8 @@ class IntProperty(PropertyProtocol):
             except ValueError:
                 return PropertyError(f"Invalid int value: {converted}")
         if isinstance(converted, float):
+            if not math.isfinite(converted):
+                return PropertyError(f"Invalid int value: {value}")
             as_int = int(converted)
             if converted == as_int:
                 converted = as_int
